@@ -185,6 +185,9 @@ class Family:
     def serial(self, view):
         return view.to_header()
 
+    def max_lines(self, model):
+        return 1
+
 
 # ----------------------------------------------------------------------------- engine
 
@@ -269,6 +272,10 @@ def coherence(fam, ctx, model, op, wrote=False):
     if not fam.valid(model):
         return out
     text = ctx.r.headers.get(fam.header)
+    nlines = len(ctx.r.headers.getlist(fam.header))
+    if nlines > fam.max_lines(model):
+        bad("header-repeated", fam.max_lines(model), nlines)
+        return out
     if want is None:
         if text is not None:
             bad("header-not-removed", None, text)
@@ -315,6 +322,9 @@ def canon(fam, ctx, model):
     return (hdr_snapshot(ctx), fam.vrep(ctx.view) if ctx.view is not None else None, fam.mrep(model))
 
 
+STATE_CAP = 60000
+
+
 def explore(fam, R):
     """BFS with merging on canon; -> closed?"""
     ctx0, m0 = rebuild(fam, ())
@@ -354,6 +364,11 @@ def explore(fam, R):
                 if c1 in seen or not fam.size_ok(new) or not fam.valid(new):
                     continue
                 seen.add(c1)
+                if len(seen) > STATE_CAP:
+                    R.violation(f"{fam.name}:graph:state-cap",
+                                {"family": fam.name, "params": fam.params, "check": "state-cap", "op": op, "history": hist,
+                                 "exp": f"a finite graph (<= {STATE_CAP} states)", "got": "still growing"})
+                    return False, len(seen)
                 if fam.depth is not None and depth + 1 >= fam.depth:
                     closed = False
                     continue
@@ -914,7 +929,10 @@ class WWWFam(Family):
         return r.www_authenticate
 
     def init_model(self):
-        return ("basic", None, ())
+        return ("basic", None, (), 1)
+
+    def max_lines(self, m):
+        return m[3]
 
     def mrep(self, m):
         return m
@@ -1028,42 +1046,42 @@ class WWWFam(Family):
 
     def expect(self, m, op):
         n = op[0]
-        t, tok, params = m
+        t, tok, params, nl = m
         d = dict(params)
         if n == "assign":
             if op[1] == "obj":
                 a, p, k = op[2]
-                return Exp((a, k, tuple(p)))
+                return Exp((a, k, tuple(p), 1))
             if op[1] in ("none", "emptylist"):
                 return Exp(self.init_model())
             a, p, k = op[2][0]
-            return Exp((a, k, tuple(p)))
+            return Exp((a, k, tuple(p), len(op[2])))      # a list: one header line per item, the first is the view
         if n in ("delprop", "hdr_del"):
             return Exp(self.init_model(), drop=True)
         if n == "hdr_set":
             a, k, p = self.parse(op[1])
-            return Exp((a, k, tuple(p)), drop=True)
+            return Exp((a, k, tuple(p), 1), drop=True)
         if n == "reobtain":
             if not self.valid(m):
                 raise Skip()
             return Exp(m)
         if n == "type_set":
-            return Exp((op[1], tok, params), readback=(lambda v: v.type, op[1]))
+            return Exp((op[1], tok, params, nl), readback=(lambda v: v.type, op[1]))
         if n == "token_set":
-            return Exp((t, op[1], params), readback=(lambda v: v.token, op[1]))
+            return Exp((t, op[1], params, nl), readback=(lambda v: v.token, op[1]))
         if n in ("attr_set", "item_set", "params_item"):
             if op[2] is None:
                 d.pop(op[1], None)
             else:
                 d[op[1]] = op[2]
-            return Exp((t, tok, tuple(d.items())))
+            return Exp((t, tok, tuple(d.items()), nl))
         if n in ("attr_del", "item_del", "params_pop"):
             d.pop(op[1], None)
-            return Exp((t, tok, tuple(d.items())))
+            return Exp((t, tok, tuple(d.items()), nl))
         if n == "params_clear":
-            return Exp((t, tok, ()))
+            return Exp((t, tok, (), nl))
         if n == "params_assign":
-            return Exp((t, tok, tuple(op[1])))
+            return Exp((t, tok, tuple(op[1]), nl))
         raise core.Broken(op)
 
 
@@ -1270,7 +1288,8 @@ SCALARS = [
     dict(prop="age", header="Age", default=RB("eq", None), deletable=True,
          assigns=[("0", 0, "0", RB("eq", timedelta(0))), ("5", 5, "5", RB("eq", timedelta(seconds=5))),
                   ("td", timedelta(seconds=7), "7", RB("eq", timedelta(seconds=7))),
-                  ("td-frac", timedelta(seconds=7, microseconds=500000), "7", RB("eq", timedelta(seconds=7)))],
+                  ("td-frac", timedelta(seconds=7, microseconds=500000), "7", RB("eq", timedelta(seconds=7))),
+                  ("td-day", timedelta(days=1, seconds=1), "86401", RB("eq", timedelta(days=1, seconds=1)))],
          direct=[("12", RB("eq", timedelta(seconds=12))), ("x", RB("eq", None))]),
     dict(prop="content_length", header="Content-Length", default=RB("eq", None), deletable=True,
          assigns=[("0", 0, "0", RB("eq", 0)), ("5", 5, "5", RB("eq", 5))],
@@ -1482,6 +1501,8 @@ def replay(rec):
     hdr0 = ctx.r.headers.get(fam.header)
     vs, _new = step(fam, ctx, model, op)
     hit = [r for _s, r in vs if r["check"] == rec["check"]]
+    if rec["check"] == "state-cap":
+        return True, f"{fam.name}: the state graph does not close (more than {STATE_CAP} states); last history {hist!r} + {op!r}"
     lines = [f"family   = {fam.name} {fam.params}", "r = Response(); view = r.<property>", f"history  = {hist!r}",
              f"header before = {hdr0!r}", f"op       = {op!r}", f"check    = {rec['check']}", f"expected = {rec['exp']!r}",
              f"recorded = {rec['got']!r}", f"header after  = {ctx.r.headers.get(fam.header)!r}",
